@@ -386,13 +386,12 @@ where
                                         );
                                     }
                                 };
-                                self.push_sequence_token(
-                                    SeqTokenType::Item,
-                                    len,
-                                    last_delimiter.pixel_data,
-                                );
+                                let pixel_data = last_delimiter.pixel_data;
+                                self.push_sequence_token(SeqTokenType::Item, len, pixel_data);
                                 // items can be empty
-                                if len == Length(0) {
+                                // (but an empty pixel data fragment
+                                // still yields its zero-length value)
+                                if len == Length(0) && !pixel_data {
                                     self.delimiter_check_pending = true;
                                 }
                                 Some(Ok(DataToken::ItemStart { len }))
